@@ -132,19 +132,33 @@ theorem integerPhase_stuck (b : Bytes) (ip : IntPart) (x : Nat) (hx : b.slc[b.in
   have hpp : ∀ r, prefixPhase c b = .ok r → r = (false, b) := by
     intro r hr
     unfold prefixPhase at hr
-    simp only [prefixRepair, Bool.false_eq_true, if_false] at hr
     split at hr
-    · simp only [bind, Except.bind, readIfValueCased] at hr
-      cases hp : peek c .integer b with
-      | error e => rw [hp] at hr; cases hr
-      | ok pr =>
-        obtain ⟨v, b1⟩ := pr
-        obtain ⟨rfl, rfl⟩ := peek_contig_ok hb .integer b b1 v hp
-        rw [hp] at hr
-        have hne : (b1.slc[b1.index]? == some 48) = false := by rw [hx]; simpa using hx48
-        simp only [hne, Bool.false_eq_true, if_false, pure, Except.pure] at hr
-        cases hr; rfl
-    · cases hr; rfl
+    · unfold prefixPhaseRepaired at hr
+      split at hr
+      · simp only [bind, Except.bind, readIfValueCased] at hr
+        cases hp : peek c .integer b with
+        | error e => rw [hp] at hr; cases hr
+        | ok pr =>
+          obtain ⟨v, b1⟩ := pr
+          obtain ⟨rfl, rfl⟩ := peek_contig_ok hb .integer b b1 v hp
+          rw [hp] at hr
+          have hne : (b1.slc[b1.index]? == some 48) = false := by rw [hx]; simpa using hx48
+          simp only [hne, Bool.false_eq_true, if_false, pure, Except.pure] at hr
+          cases hr; rfl
+      · cases hr; rfl
+    · unfold prefixPhaseCurrent at hr
+      split at hr
+      · simp only [bind, Except.bind, readIfValueCased] at hr
+        cases hp : peek c .integer b with
+        | error e => rw [hp] at hr; cases hr
+        | ok pr =>
+          obtain ⟨v, b1⟩ := pr
+          obtain ⟨rfl, rfl⟩ := peek_contig_ok hb .integer b b1 v hp
+          rw [hp] at hr
+          have hne : (b1.slc[b1.index]? == some 48) = false := by rw [hx]; simpa using hx48
+          simp only [hne, Bool.false_eq_true, if_false, pure, Except.pure] at hr
+          cases hr; rfl
+      · cases hr; rfl
   unfold integerPhase at h
   simp only [bind, Except.bind, pure, Except.pure] at h
   cases hpp0 : prefixPhase c b with
